@@ -68,7 +68,7 @@ pub fn gen_query(t: &mut Tape, ctx: &Ctx, opts: QOpts) -> Generated {
             cols.push((if clash { format!("u.{}", n) } else { n.clone() }, *ty));
         }
         if aggregate {
-            let combined = DataTable { name: "t".into(), json: true, cols: cols.clone(), not_null: None };
+            let combined = DataTable { name: "t".into(), json: true, cols: cols.clone(), not_null: None, default_col: None };
             q = gen_aggregate_query(t, &combined, ctx, opts.order_sensitive, &mut excluded);
             if !opts.having {
                 q.having = None;
@@ -124,6 +124,16 @@ fn gen_plain(t: &mut Tape, ctx: &Ctx, cols: &[(String, Ty)], opts: QOpts) -> Sel
 /// Lines that are not admitted *by construction* for the table (they match nothing, carry only NULLs,
 /// or fail the NOT NULL column). None if the table admits every line (e.g. a regex table with a BOOLEAN column).
 pub fn gen_noise_line(t: &mut Tape, table: &DataTable) -> Option<String> {
+    if table.has_default() {
+        // a declared DEFAULT counts as a value: every line is admitted unless its NOT NULL column is NULL
+        if let Some(nn) = table.not_null {
+            if table.json || table.cols[nn].1 != Ty::Bool {
+                let values: Vec<V> = table.cols.iter().enumerate().map(|(i, (_, ty))| if i == nn { V::Null } else { crate::props::c04::small_value(t, *ty) }).collect();
+                return Some(table.line(&values, t));
+            }
+        }
+        return None;
+    }
     if table.json {
         let mut options: Vec<String> = vec![
             String::new(),
